@@ -158,8 +158,12 @@ def generate(run_seed):
             kind = rng.choice(["load", "load", "deferred_load", "repository", "include"])
             script.append([kind, u, None] if kind == "include" else [kind, u])
         last = rng.choice(["load", "load", "t_load"])
+        if script[0][0] == "t_deferred_load" and rng.random() < 0.5:
+            # a second TemplateHandler of the same process asks while the first one's loader is
+            # in flight (the loaded table is per handler, the loading table is the class')
+            last = "t2_load"
         script.append([last, root])
-        if last == "t_load" or rng.random() < 0.2:
+        if last in ("t_load", "t2_load") or rng.random() < 0.2:
             script.append([last, root])     # the same call again: the same object
     for _ in range(0 if template else (rng.randint(0, 2) if template is None else rng.randint(2, 5))):
         r = rng.random()
@@ -175,7 +179,7 @@ def generate(run_seed):
         elif r < 0.86:
             script.append(["repository", u])
         elif r < 0.92:
-            script.append([rng.choice(["t_deferred_load", "t_load"]), u])
+            script.append([rng.choice(["t_deferred_load", "t_load", "t2_load", "t2_deferred_load"]), u])
         elif r < 0.96:
             script.append(["advance"])
         else:
@@ -550,10 +554,11 @@ def run_script(case, mode, forced=None):
                                  for v in p.values)
                 return {"equivalent": None if eq is None else
                         (eq.name if kind_of(eq) == "sec" else [e.name for e in eq]), "own": own}
-            if name in ("t_deferred_load", "t_load"):
+            if name in ("t_deferred_load", "t_load", "t2_deferred_load", "t2_load"):
                 import odml.templates as TP
-                handler = world.__dict__.setdefault("templ", TP.TemplateHandler())
-                if name == "t_deferred_load":
+                handler = world.__dict__.setdefault("templ2" if name.startswith("t2") else "templ",
+                                                    TP.TemplateHandler())
+                if name.endswith("deferred_load"):
                     handler.deferred_load(url)
                     return None
                 return summarize(handler.load(url))
@@ -646,6 +651,7 @@ class Model(object):
         self.src = {}
         self.T = {}
         self.TP = {}
+        self.TP2 = {}       # a second handler: a loaded table of its own
         self.own = {}        # resource -> [its own version marker] as loaded now, None if no document
         self.reload = False
         for n, node in self.nodes.items():
@@ -705,18 +711,19 @@ class Model(object):
         self.own[n] = None if (doc is None or self.nodes[n].get("sectionless")) else [n + tag[1]]
         return doc
 
-    def templ(self, n):
+    def templ(self, n, table=None):
         """TemplateHandler.load: own table, shared cache directory, includes through terminologies."""
         if n not in self.nodes:
             return None
-        if n in self.TP:
-            return self.TP[n]
+        TP = self.TP if table is None else table
+        if n in TP:
+            return TP[n]
         tag = self.cache_load(n, False)
         if tag is None or tag[0] != "ok":
             return None
         doc = self._resolve_includes(n, n + tag[1])
         if doc is not None:
-            self.TP[n] = doc
+            TP[n] = doc
         return doc
 
     def run(self, script):
@@ -732,9 +739,9 @@ class Model(object):
                     exp = "none" if res is None else frozenset(res)
                 elif name == "repository" and n in self.nodes:
                     exp = ("own", self.own.get(n) if res is not None else None)
-            elif name in ("t_load", "t_deferred_load"):
-                res = self.templ(n)
-                if name == "t_load":
+            elif name in ("t_load", "t_deferred_load", "t2_load", "t2_deferred_load"):
+                res = self.templ(n, self.TP2 if name.startswith("t2") else None)
+                if name.endswith("_load") and "deferred" not in name:
                     exp = "none" if res is None else frozenset(res)
             elif name == "refresh":
                 self.reload = True
@@ -809,7 +816,8 @@ def judge_model(case, ref):
     return None
 
 
-NO_RAISE_CALLS = ("load", "deferred_load", "refresh", "repository", "t_load", "t_deferred_load")
+NO_RAISE_CALLS = ("load", "deferred_load", "refresh", "repository", "t_load", "t_deferred_load",
+                  "t2_load", "t2_deferred_load")
 
 
 def judge(case, hist, ref, scheduled):
@@ -859,7 +867,7 @@ def judge(case, hist, ref, scheduled):
             out, rout = call["outcome"], ref["calls"][i]["outcome"]
             if out[0] != "ret" or rout[0] != "ret":
                 continue
-            if name in ("load", "t_load"):
+            if name in ("load", "t_load", "t2_load"):
                 a, b = out[1], rout[1]
                 if ("none" in a) != ("none" in b):
                     return dict(sig("load.equals-reference", name, "none-mismatch"), step=i,
@@ -893,9 +901,10 @@ def judge(case, hist, ref, scheduled):
         name = call["op"][0]
         if name == "refresh":
             epoch += 1
-        if name in ("load", "t_load") and call["outcome"][0] == "ret" and "token" in call["outcome"][1]:
-            # the template handler has a table of its own and is not touched by refresh
-            key = (epoch, call["op"][1]) if name == "load" else ("t", call["op"][1])
+        if name in ("load", "t_load", "t2_load") and call["outcome"][0] == "ret" and \
+                "token" in call["outcome"][1]:
+            # a template handler has a table of its own and is not touched by refresh
+            key = (epoch, call["op"][1]) if name == "load" else (name[:2], call["op"][1])
             tok = call["outcome"][1]["token"]
             if key in seen and seen[key] != tok:
                 return dict(sig("load.same-object", name, "other-object"), step=i,
